@@ -2,8 +2,10 @@
    Model: Emu/EmuCoreDefs.v (oh_step = src/emu/ovni/event.c pre_thread_*, thread.c, cpu.c),
    spec: Emu/ThreadSpecDefs.v (fsm, spec_step).  Proofs: Proofs/ThreadCpuProofs.v, Proofs/EmuCoreWf.v. *)
 From Coq Require Import ZArith List Bool.
+From OV Require Import Emu.GuardsPre.
 From OV Require Import Emu.EmuCoreDefs Emu.ThreadSpecDefs Proofs.EmitProofs Proofs.EmuCoreProofs
   Proofs.ThreadCpuProofs Proofs.EmuCoreWf Proofs.TotalProofs.
+From OV Require Gen.Guards_gen Proofs.GuardsProofs Emu.DecodeDefs.
 Import ListNotations.
 Local Open Scope Z_scope.
 
@@ -85,4 +87,68 @@ Definition sx3 : static :=
   {| s_threads := s_threads sx2; s_cpus := s_cpus sx2; s_chans := DecodeDefs.mk_chans [DecodeDefs.M_OVNI; DecodeDefs.M_NOSV]; s_lint := true |}.
 Example C04_ex_hyps : types_okb (s_chans sx3) = true /\ any_init_okb (s_chans sx3) = true /\ forallb spec_safeb (s_chans sx3) = true /\
   is_ok (run sx3 [] (oh_events [(1, 0%nat, Execute 0); (2, 1%nat, Execute (-1)); (3, 0%nat, Cool); (4, 0%nat, End_); (5, 1%nat, End_)])) = true.
+Proof. vm_compute. repeat split. Qed.
+
+(* ---------------------------------------------------------------------------------------------
+   The tie to the source.  Gen/Guards_gen.v is regenerated on every run by translate/units/guards.py
+   from src/emu/ovni/event.c: one Gallina definition per C function, statement by statement, in the
+   monad of Emu/GuardsPre.v (thread_set_state, thread_set_cpu, cpu_add_thread, cpu_remove_thread,
+   cpu_update, ... are primitives with a hand-written meaning).  The theorems below say that these
+   generated functions compute what the hand model oh_step computes: same accepted state, or both
+   reject, and the generated code never dereferences NULL.  A changed guard, a changed order of the
+   calls or a changed constant in the C changes Guards_gen.v and breaks them.
+   GInv: a bound thread is in the list of its CPU and no CPU is oversubscribed (part of the invariant
+   Bind, which C04_step_simulation shows is kept by every accepted event). *)
+
+(* the six thread handlers pre_thread_execute/end/pause/resume/cool/warm generated from the source = oh_step *)
+Theorem C04_handlers_from_source : forall sx st who th,
+  nth_error (threads st) who = Some th -> GuardsProofs.GInv sx st -> t_ooc th = false ->
+  (forall e, e_who e = who ->
+     outcome_of (exec (Guards_gen.pre_thread_execute e (Some who)) sx st) =
+     outcome_of (if Nat.ltb (length (e_payload e)) 4 then Err E_PAYLOAD
+                 else oh_step sx st who (Execute (pl_i32 (e_payload e) 0)))) /\
+  outcome_of (exec (Guards_gen.pre_thread_end (Some who)) sx st) = outcome_of (oh_step sx st who End_) /\
+  outcome_of (exec (Guards_gen.pre_thread_pause (Some who)) sx st) = outcome_of (oh_step sx st who Pause) /\
+  outcome_of (exec (Guards_gen.pre_thread_resume (Some who)) sx st) = outcome_of (oh_step sx st who Resume) /\
+  outcome_of (exec (Guards_gen.pre_thread_cool (Some who)) sx st) = outcome_of (oh_step sx st who Cool) /\
+  outcome_of (exec (Guards_gen.pre_thread_warm (Some who)) sx st) = outcome_of (oh_step sx st who Warm).
+Proof. exact GuardsProofs.six_handlers_eq. Qed.
+Print Assumptions C04_handlers_from_source.
+
+(* the dispatcher model_ovni_event -> pre_thread generated from the source (out-of-CPU guard, switch on the
+   event value, payload size of OHx, OHC accepted and ignored, unknown values refused) = the decoder
+   followed by the handler of the hand model, for every value byte and every payload *)
+Theorem C04_dispatch_from_source : forall sx st who th me cs v p,
+  nth_error (threads st) who = Some th -> nth_error (s_threads sx) who = Some me -> GuardsProofs.GInv sx st ->
+  outcome_of (exec (Guards_gen.model_ovni_event (GuardsProofs.mk_emu who 72 v p)) sx st) =
+  outcome_of (GuardsProofs.fst_res (core_step sx st who (DecodeDefs.decode_ovni cs 72 v p))).
+Proof. exact (fun sx st who th me cs v p Hth Hme HI => GuardsProofs.dispatch_eq sx st who th me cs 72 v p Hth Hme HI (or_introl eq_refl)). Qed.
+Print Assumptions C04_dispatch_from_source.
+
+(* whole histories, no hypothesis on the state: from the initial state, the generated dispatcher and the hand
+   model accept the same sequences of raw OH*/OA* events (any value bytes, any payloads, threads of the trace)
+   and end in the same state *)
+Theorem C04_histories_from_source : forall sx cs evs,
+  Forall (GuardsProofs.raw_ok sx) evs ->
+  outcome_of (GuardsProofs.gen_run sx (init sx) evs) = outcome_of (GuardsProofs.model_run sx cs (init sx) evs).
+Proof. exact GuardsProofs.gen_run_init_eq. Qed.
+Print Assumptions C04_histories_from_source.
+
+(* the generated handlers evaluated: x on the physical CPU, c, p, w, r, e is accepted and leaves thread 0 dead and
+   unbound; a second execute while running is refused; GInv holds initially *)
+Example C04_ex_generated_accepts :
+  match GuardsProofs.gen_run GuardsProofs.gx (init GuardsProofs.gx)
+          [(0%nat, 72, 120, GuardsProofs.i32le 0); (0%nat, 72, 99, []); (0%nat, 72, 112, []); (0%nat, 72, 119, []);
+           (0%nat, 72, 114, []); (0%nat, 72, 101, [])] with
+  | Ok st => (tst_eqb (t_state (nth 0 (threads st) dummy_thread)) Dead, t_cpu (nth 0 (threads st) dummy_thread), cpu_threads st)
+  | Err _ => (false, None, [])
+  end = (true, None, [[]; []]).
+Proof. vm_compute. reflexivity. Qed.
+Example C04_ex_generated_refuses :
+  outcome_of (GuardsProofs.gen_run GuardsProofs.gx (init GuardsProofs.gx)
+                [(0%nat, 72, 120, GuardsProofs.i32le 0); (0%nat, 72, 120, GuardsProofs.i32le (-1))]) = Reject /\
+  outcome_of (GuardsProofs.gen_run GuardsProofs.gx (init GuardsProofs.gx)
+                [(0%nat, 72, 120, GuardsProofs.i32le 0); (0%nat, 72, 119, [])]) = Reject /\
+  outcome_of (GuardsProofs.gen_run GuardsProofs.gx (init GuardsProofs.gx)
+                [(0%nat, 72, 120, GuardsProofs.i32le 0); (1%nat, 72, 120, GuardsProofs.i32le 0)]) = Reject.
 Proof. vm_compute. repeat split. Qed.
